@@ -23,6 +23,12 @@ class C03(framework.PropertyCheck):
             tids = ['t0', 'tB'][:ntr]
             g = gen_expr.ExprGen(rng, tids if ntr == 2 else None, n_max=max(lens))
             e = g.expr(rng.randint(1, 4))
+            if c % 25 == 7 and ntr == 1 and lens[0] >= 2:
+                # relative evaluations nested far deeper than any realistic bound (there is none in the language): every level is undone
+                sig = 'top.cnt'
+                e = sig
+                for lvl in range(rng.randint(33, 45)):
+                    e = f'(reval {e} {1 if lvl % 2 else -1})'
             nmax = max(lens)
             pairs = []
             all_pairs = tier == 'thorough' and nmax <= 5 and c % 4 == 0
